@@ -430,8 +430,8 @@ func scenCtxWhileStreamFloods(tr *vtrace.Tracer, kind string) error {
 	c.ctx = NewManualCtx(c.tok)
 	req := &puppet.Req{Call: c.tok}
 	from := tr.Len()
-	// the quorum function never reports done and takes 10 ms per invocation
-	l.e.QS.Set(c.tok, &QFParams{QF: "thr", K: 1000, Lv: "count", Orig: req, Delay: func() { time.Sleep(10 * time.Millisecond) }})
+	// the quorum function never reports done and takes 25 ms per invocation (300 updates outlast the quiescence period)
+	l.e.QS.Set(c.tok, &QFParams{QF: "thr", K: 1000, Lv: "count", Orig: req, Delay: func() { time.Sleep(25 * time.Millisecond) }})
 	l.all = append(l.all, c)
 	tr.Emit("StubCall", 0, c.tok, "method", "CorrStream", "probe", false, "kind", "corrstream")
 	go func() {
@@ -588,6 +588,25 @@ func scenStreamReplaced(tr *vtrace.Tracer, kind string) error {
 	l.wait(a, QuietT)
 	p := l.call("Rpc", 1, true, false)
 	l.wait(p, QuietT)
+	l.quiescent()
+	// the stream fails once more (a context ends during a write): whatever the receiver did when it
+	// found its stream replaced must not keep the next re-creation from happening
+	gs2 := l.gate("SendWait", 1)
+	d2 := l.call("Rpc", 1, false, false)
+	if gs2.Arrived(SyncTimeout) {
+		pos2 := tr.Len()
+		l.endCtx(d2)
+		tr.Await(pos2, SyncTimeout, func(e vtrace.Event) bool { return e.Ev == "WatcherCancel" })
+	}
+	gs2.Open()
+	l.wait(d2, SyncTimeout)
+	for i := 0; i < 3; i++ {
+		x := l.call("Rpc", 1, false, false)
+		l.wait(x, QuietT)
+		time.Sleep(20 * time.Millisecond)
+	}
+	p2 := l.call("Rpc", 1, true, false)
+	l.wait(p2, QuietT)
 	l.quiescent()
 	return nil
 }
